@@ -257,10 +257,10 @@ def gen_journal(rng, memo=False):
     if memo:
         # parse-time lookups between the entries, aimed at the report's (commodity, target, date)
         j.memo_t = rng.choice(comms[:n])
-        j.memo_day = rng.choice(cand)
+        j.memo_day = rng.choice(cand[len(cand) // 2:])
         for _ in range(rng.choice([1, 1, 2, 3])):
-            src = rng.choice([c for c in comms if c != j.memo_t])
-            pos = rng.randrange(len(j.elems) + 1)
+            src = rng.choice([c for c in (comms[:n] if rng.random() < 0.8 else comms) if c != j.memo_t])
+            pos = rng.randrange(len(j.elems) + 1) if rng.random() < 0.5 else rng.randrange(len(j.elems) // 2 + 1)
             j.elems.insert(pos, ('L', src, j.memo_t, j.memo_day))
     return j
 
@@ -538,6 +538,21 @@ def judge(qr, ci):
             if fact not in facts:
                 bad.append(('prices:not-recorded', 'a listed price was never recorded', row, 'one of the recorded prices'))
                 break
+        else:
+            # ... and every recorded price not after D is listed (every commodity of these journals
+            # occurs in a posting), except one replaced by a later line for the same pair and moment
+            last = {}
+            for f in facts:
+                if f[1] != f[3]:
+                    last[(f[0], frozenset((f[1], f[3])))] = f
+            want = sorted('%d %s %d/%d %s' % (f[0], f[1].encode().hex(), f[2].numerator, f[2].denominator, f[3].encode().hex())
+                          for f in last.values() if f[0] <= D)
+            if sorted(ci) != want:
+                missing = [r for r in want if r not in ci]
+                extra = [r for r in ci if r not in want]
+                bad.append(('prices:missing' if missing else 'prices:superseded-listed',
+                            'the %s listing as of %s does not show exactly the recorded prices not after that date' % (qr.kind, dstr(qr.day)),
+                            str(extra or ci)[:400], str(missing or want)[:400]))
     return bad
 
 
@@ -554,7 +569,7 @@ def run(ctx, n_override=None):
                 '1-6 distinct days in shuffled order; each observed through bal -X/-V at dates before, on, between and after '
                 'the price days, reg -X/-V, prices, pricedb; non-trivial = the report converts at least one amount through '
                 'a recorded price or lists at least one price; distinct by journal text + command line')
-    nj = n_override or ctx.scale(230, 4000)
+    nj = n_override or ctx.scale(500, 4000)
     nmemo = max(10, nj // 8)
     queries = []
     journals = []
@@ -602,7 +617,7 @@ def run(ctx, n_override=None):
         res.count('query:%s%s' % (qr.kind, '' if qr.kind not in ('bal', 'reg', 'balmemo', 'balfut') else ('-X' if qr.tgt else '-V')))
         ci = canon_impl(qr)
         cm = canon_model(qr, ml)
-        case = dict(journal=qr.j.text() if qr.kind != 'balfut' else open(qr.path).read(), args=qr.args[2:])
+        case = dict(journal=qr.j.text() if qr.kind != 'balfut' else open(qr.path).read(), args=qr.args[2:], raw=qr.raw[:4000])
         if ci != cm:
             res.disagreements.append(dict(name='C10/' + qr.kind + ('-X' if getattr(qr, 'tgt', None) else ''),
                                           case=case, impl=diffview(ci, cm)[0], model=diffview(ci, cm)[1]))
@@ -625,7 +640,8 @@ def run(ctx, n_override=None):
             if ci != ct:
                 res.violations.append(dict(key='bal-X:future-price-matters',
                                            desc='deleting the P lines dated after %s changes what -X %s --now %s shows' % (dstr(qr.day), qr.tgt, dstr(qr.day)),
-                                           case=dict(journal=qr.j.text(), args=qr.args[2:]), observed=str(diffview(ct, ci)[0])[:500],
+                                           case=dict(journal=qr.j.text(), args=qr.twin.args[2:], raw=qr.twin.raw[:4000]),
+                                           observed=str(diffview(ct, ci)[0])[:500],
                                            required=str(diffview(ct, ci)[1])[:500]))
     return res
 
@@ -658,14 +674,18 @@ def search(ctx, broken):
 
 
 def replay(ctx, obj):
+    """re-run the stored journal and command; the violation stands while ledger still prints what
+    was recorded as the failing output"""
     res = lib.Result()
     case = obj.get('case') or {}
     if 'journal' in case:
         path = ctx.path('replay.dat')
         open(path, 'w').write(case['journal'])
         st, out, err = lib.run_ledger(['-f', path] + list(case['args']))
+        now = out.decode('utf-8', 'replace')
         print('replay: ledger -f %s %s' % (path, ' '.join(case['args'])))
-        print(out.decode('utf-8', 'replace'))
+        print(now)
         print('observed before: %s\nrequired: %s' % (obj.get('observed'), obj.get('required')))
-        res.violations.append(dict(key=obj.get('key', '?'), desc=obj.get('desc', '')))
+        if 'raw' not in case or now[:4000] == case['raw']:
+            res.violations.append(dict(key=obj.get('key', '?'), desc=obj.get('desc', '')))
     return res
